@@ -15,6 +15,8 @@ bnot = Function('bnot', I, I)
 shr = Function('shr', I, I, I)
 tz = Function('tz', I, I)          # index of the lowest set bit, for x != 0
 atomv = Function('atomv', I, I)    # 1 << i  (the atom 2^i), for i >= 0
+shl = Function('shl', I, I, I)     # x << s, for s >= 0
+maskv = Function('maskv', I, I)    # (1 << j) - 1: the positions below j
 
 
 def axioms():
@@ -52,6 +54,13 @@ def axioms():
     A('B8d', [x, y], Implies(And(x >= 0, y >= 0), And(band(x, y) <= x, band(x, y) <= y)), [band(x, y)])
     A('B11a', [x, k], Implies(x >= 0, bit(atomv(x), k) == (k == x)), [bit(atomv(x), k)])
     A('B11b', [x], Implies(x >= 0, atomv(x) > 0), [atomv(x)])
+    ax.append(('B11c', atomv(0) == 1))
+    # B12: (1 << x) - 1 has exactly the bits below x (lemmas/Bits.lean: B12_testBit_two_pow_sub_one)
+    A('B12.mask', [x], Implies(x >= 0, And(atomv(x) - 1 == maskv(x), maskv(x) >= 0)), [atomv(x)])
+    A('B12.bits', [x, k], Implies(x >= 0, bit(maskv(x), k) == And(0 <= k, k < x)), [bit(maskv(x), k)])
+    A('B13a', [x, s, k], Implies(s >= 0, bit(shl(x, s), k) == And(k >= s, bit(x, k - s))), [bit(shl(x, s), k)])
+    A('B13b', [x, s], Implies(And(x >= 0, s >= 0), shl(x, s) >= 0), [shl(x, s)])
+    A('B13c', [x], Implies(x >= 0, shl(1, x) == atomv(x)), [shl(1, x)])
     return ax
 
 
@@ -86,6 +95,7 @@ def selftest_axioms(lim=40, kmax=9):
             assert t >= 0 and c_bit(x, t) and all(not c_bit(x, k) for k in range(-2, t))
         if x >= 0 and x < 12:
             assert (1 << x) > 0 and all(c_bit(1 << x, k) == (k == x) for k in range(-2, 14))
+            assert (1 << 0) == 1
             # B12 (contracts/fcbo_theory.py): (1 << x) - 1 is the natural with exactly the bits below x
             assert (1 << x) - 1 >= 0 and all(c_bit((1 << x) - 1, k) == (0 <= k < x) for k in range(-2, 14))
         for k in K:
@@ -99,6 +109,9 @@ def selftest_axioms(lim=40, kmax=9):
             for s in range(0, 5):
                 if k >= 0:
                     assert c_bit(x >> s, k) == c_bit(x, k + s)
+                assert c_bit(x << s, k) == (k >= s and c_bit(x, k - s))       # B13a
+                if x >= 0:
+                    assert (x << s) >= 0
                 n += 1
         for s in range(0, 6):
             if x >= 0:
